@@ -182,6 +182,16 @@ func (g *Gen) run() {
 		for _, cl := range g.spec.Requires {
 			g.assume("true", g.evalBool(env, g.P.expand(cl.E)))
 		}
+		for _, cl := range g.spec.RefinesPre {
+			for _, part := range splitGoal(g.P.expand(cl.E)) {
+				lb := cl.Name
+				if lb == "" {
+					lb = part.String()
+				}
+				g.oblige("refines-pre", lb, token.NoPos, "true", g.evalBool(env, part))
+			}
+			g.assume("true", g.evalBool(env, g.P.expand(cl.E)))
+		}
 		env.atEntry = false
 		for _, cl := range g.spec.Assumes {
 			g.assume("true", g.evalBool(env, g.P.expand(cl.E)))
